@@ -147,6 +147,78 @@ def St.step (s : St) : Scancode → St × Option Packet
   | .limitMotion .released => ({ s with limitMotion := true }, none)
   | _ => (s, none)
 
+/-! ### the translated table of `InputState::try_from`
+
+`Consts.inputTable` is produced by the translator (tools/extract.py, `extract_input_table`) from the source text of
+`InputState::try_from` on every run, one row per match arm in source order.  `stepT` gives the rows their meaning;
+`Thm.C18.C18_translation` proves that this meaning is `St.step` for every state and scancode. -/
+
+/-- (scancode number of the table, axis value, button state) -/
+def Scancode.key : Scancode → Nat × Int × Option Btn
+  | .slew v => (0, v, none) | .arm v => (1, v, none) | .attachment v => (2, v, none) | .boom v => (3, v, none)
+  | .leftTrack v => (4, v, none) | .rightTrack v => (5, v, none)
+  | .up b => (6, 0, some b) | .down b => (7, 0, some b) | .abort b => (8, 0, some b) | .driveLock b => (9, 0, some b)
+  | .limitMotion b => (10, 0, some b) | .confirm b => (11, 0, some b)
+
+/-- `if self.limit_motion { (value / 2).ramp(d) } else { value.ramp(d) }` -/
+def limited (lim : Bool) (v : Int) (d : Nat) : Int := if lim then ramp (half v) d else ramp v d
+
+/-- value expression of an axis row -/
+def axisValue (expr d1 d2 : Nat) (lim : Bool) (v : Int) : Option Int :=
+  if expr = 1 then some (limited lim v d1)
+  else if expr = 2 then some (if v < 0 then limited lim v d1 else ramp v d2)
+  else if expr = 3 then some (if v < 0 then ramp v d1 else limited lim v d2)
+  else if expr = 4 then some (ramp v d1)
+  else none
+
+def rowMatches (row : List Nat) (k : Nat × Int × Option Btn) : Bool :=
+  match row, k with
+  | 0 :: sc :: _, (n, _, none) => sc == n
+  | _ :: sc :: p :: _, (n, _, some b) => sc == n && (p == 1) == (b == .pressed)
+  | _, _ => false
+
+/-- one row applied; the outer `none` = a row this interpreter gives no meaning to -/
+def rowStep (s : St) (v : Int) : List Nat → Option (St × Option Packet)
+  | [0, _, gate, expr, d1, d2, out, a] =>
+    if gate ≠ 1 then none
+    else if s.motionLock then some (s, none)
+    else match axisValue expr d1 d2 s.limitMotion v, Actuator.ofId? a with
+      | some x, some act =>
+        if out = 0 then some (s, some (change act x))
+        else if out = 1 then some (s, some (if s.driveLock then .motion (.straightDrive x) else change act x))
+        else none
+      | _, _ => none
+  | [1, _, _, field, value, out] =>
+    let b := value = 1
+    let s'? : Option St :=
+      if field = 0 then some { s with driveLock := b } else if field = 1 then some { s with motionLock := b }
+      else if field = 2 then some { s with limitMotion := b } else none
+    let o? : Option (Option Packet) :=
+      if out = 0 then some none else if out = 1 then some (some (.motion .stopAll))
+      else if out = 2 then some (some (.motion .resumeAll))
+      else if out = 3 then some (some (.motion (.straightDrive Consts.inputPowerNeutral))) else none
+    match s'?, o? with
+    | some s', some o => some (s', o)
+    | _, _ => none
+  | [2, _, _, gate, step, lo, hi] =>
+    if gate ≠ 2 then none
+    else if !s.motionLock then some (s, none)
+    else
+      let r := if s.engineRpm + step < lo then lo else if s.engineRpm + step > hi then hi else s.engineRpm + step
+      some ({ s with engineRpm := r }, some (.engine (Engine.fromRpm r)))
+  | [3, _, _, floor, step, lo, hi] =>
+    if s.engineRpm ≤ floor then some ({ s with engineRpm := 0 }, some (.engine Engine.shutdown))
+    else
+      let r := if s.engineRpm - step < lo then lo else if s.engineRpm - step > hi then hi else s.engineRpm - step
+      some ({ s with engineRpm := r }, some (.engine (Engine.fromRpm r)))
+  | _ => none
+
+/-- first matching arm wins; no arm = the `_ => None` arm (whose presence the translator checks) -/
+def stepT (table : List (List Nat)) (s : St) (sc : Scancode) : Option (St × Option Packet) :=
+  match table.find? (fun row => rowMatches row sc.key) with
+  | some row => rowStep s sc.key.2.1 row
+  | none => some (s, none)
+
 /-- one raw record through the whole pipeline of `main`'s loop; `none` = the process died -/
 def pipeline (d : Dev) (s : St) (raw : List Nat) : Option (Dev × St × Option Packet) :=
   match decodeEvent raw with
